@@ -1,4 +1,5 @@
 import CoapVerif.Lemmas.TlsGate
+import CoapVerif.Lemmas.PskSelect
 import CoapVerif.Spec.TlsCreds
 /-
 C19 — (D)TLS sessions exchange application data only after an authenticated handshake.
@@ -144,8 +145,9 @@ theorem est_flag_only_after_hsOk {s : Sess} (h : Unauth s) (evs : List (Ev × Li
 
 /-- The sessions histories start from are unauthenticated unless the oracle says otherwise in the creating call: the
 client session made by coap_new_client_session_psk2 … -/
-theorem newClient_sessOk (orc : List Orc) : SessOk ((⟨true, false⟩ : Mon).run (newClient orc).2) (newClient orc).1 := by
-  have h0 : Inv ⟨true, false⟩ false ({ s := { proto := .dtls, typ := .client }, orc := orc } : Ctx) :=
+theorem newClient_sessOk (orc : List Orc) (bm : Bool := false) :
+    SessOk ((⟨true, false⟩ : Mon).run (newClient orc bm).2) (newClient orc bm).1 := by
+  have h0 : Inv ⟨true, false⟩ false ({ s := { proto := .dtls, typ := .client, blockMode := bm }, orc := orc } : Ctx) :=
     ⟨rfl, by simp, by simp, by simp, by simp⟩
   exact sessOk_of_inv (dtlsEstablishClient_inv h0)
 
@@ -156,12 +158,12 @@ theorem endpoint_sessOk (orc : List Orc) :
     ⟨rfl, by simp, by simp, by simp, by simp⟩
   exact sessOk_of_inv (handleDgramForProto_inv (inv_emit_inert _ rfl h0))
 
-/-- whole life of a client session, from coap_new_client_session_psk2 on: no handler call, no PDU written before the
-oracle's success; nothing in clear -/
-theorem client_life_gated (orc0 : List Orc) (evs : List (Ev × List Orc)) (pre post : List Out) (o : Out)
-    (htr : (newClient orc0).2 ++ ((newClient orc0).1.run evs).2 = pre ++ o :: post) (ho : o.needsHs = true) :
+/-- whole life of a client session, from coap_new_client_session_psk2 on (context with or without
+COAP_BLOCK_USE_LIBCOAP: `bm`): no handler call, no PDU written before the oracle's success; nothing in clear -/
+theorem client_life_gated (orc0 : List Orc) (evs : List (Ev × List Orc)) (pre post : List Out) (o : Out) (bm : Bool := false)
+    (htr : (newClient orc0 bm).2 ++ ((newClient orc0 bm).1.run evs).2 = pre ++ o :: post) (ho : o.needsHs = true) :
     Out.hsOkMark ∈ pre ∧ o.isClear = false := by
-  have hk := (run_sessOk evs (newClient_sessOk orc0)).ok
+  have hk := (run_sessOk evs (newClient_sessOk orc0 bm)).ok
   rw [← Mon.run_append, htr] at hk
   constructor
   · rcases mon_split _ pre post o hk ho with h1 | ⟨x, hx, hm⟩
@@ -252,23 +254,45 @@ theorem relTail_shape (st0 : SState) (c : Ctx) :
     · by_cases h1 : c.s.sockOpen = true <;> by_cases h2 : st0 = .none <;> simp [h1, h2, Ctx.emit, Ctx.upd]
   · exact ⟨[], by simp⟩
 
-/-- everything coap_session_disconnected_lkd does (nothing in flight, not an ICMP error) before the reliable-transport
-events and the close: the NACKs, both queues emptied, state NONE (ESTABLISHED for UDP), con_active 0 -/
+/-- everything coap_session_disconnected_lkd does (not an ICMP error) before the reliable-transport events and the close:
+the NACKs, both queues emptied, the lg_crcv list deleted, state NONE (ESTABLISHED for UDP), con_active 0 -/
 def discPre (c : Ctx) (r : Nack) : Ctx :=
-  { c with out := c.out ++ ((c.s.delayq.filter fun q : QMsg => q.con).map (nackOf r) ++
-              (if ((c.s.delayq.filter fun q : QMsg => q.con).map (nackOf r)).isEmpty then [Out.nack r none none] else [])),
+  { c with out := c.out ++ c.discOuts r,
            s := { c.s with delayq := [], state := if c.s.proto = .udp then .established else .none, conActive := 0,
-                           inflight := [] } }
+                           inflight := [], lgCrcv := [] } }
 
 theorem disconnected_eq (c : Ctx) (r : Nack) (hr : r ≠ .icmp) (hi : c.s.inflight = []) :
     c.disconnected r = ((discPre c r).relTail c.s.state).sessionClose := by
-  unfold Ctx.disconnected Ctx.discOuts discPre
+  unfold Ctx.disconnected discPre
   simp [hr, hi, Ctx.upd]
 
+/-- the delay-queue NACKs -/
+def dqNacks (c : Ctx) (r : Nack) : List Out := (c.s.delayq.filter fun q : QMsg => q.con).map (nackOf r)
+
+/-- what follows them in `discOuts` when nothing is in flight: the first lg_crcv entry's request, or the anonymous NACK —
+either only if the delay queue held no Confirmable -/
+def discRest (c : Ctx) (r : Nack) : List Out :=
+  if (c.s.delayq.filter fun q : QMsg => q.con) = [] then
+    (match c.s.lgCrcv with | g :: _ => [nackOf r g] | [] => [Out.nack r none none])
+  else []
+
+theorem discOuts_eq (c : Ctx) (r : Nack) (hr : r ≠ .icmp) (hi : c.s.inflight = []) :
+    c.discOuts r = dqNacks c r ++ discRest c r := by
+  unfold Ctx.discOuts Ctx.discLg Ctx.discFirst Ctx.discDq dqNacks discRest
+  by_cases hf : (c.s.delayq.filter fun q : QMsg => q.con) = []
+  · cases hl : c.s.lgCrcv <;> simp [hr, hi, hf, hl]
+  · cases hl : c.s.lgCrcv <;> simp [hr, hi, hf, hl]
+
 theorem sessionClose_state (c : Ctx) :
-    c.sessionClose.s.state = c.s.state ∧ c.sessionClose.s.doingFirst = c.s.doingFirst := by
+    c.sessionClose.s.state = c.s.state ∧ c.sessionClose.s.doingFirst = c.s.doingFirst ∧ c.sessionClose.s.lgCrcv = c.s.lgCrcv := by
   unfold Ctx.sessionClose Ctx.dtlsFreeSession Ctx.freeEnv
   split <;> (try split) <;> (try split) <;> simp [Ctx.emit, Ctx.upd]
+
+theorem relTail_lg (st0 : SState) (c : Ctx) : (c.relTail st0).s.lgCrcv = c.s.lgCrcv := by
+  unfold Ctx.relTail
+  split
+  · by_cases h1 : c.s.sockOpen = true <;> by_cases h2 : st0 = .none <;> simp [h1, h2, Ctx.emit, Ctx.upd]
+  · rfl
 
 theorem relTail_state_tls (st0 : SState) (c : Ctx) (hp : c.s.proto = .tls) :
     (c.relTail st0).s.state = c.s.state ∧ (c.relTail st0).s.doingFirst = false := by
@@ -283,59 +307,130 @@ PROVED here: the failure step itself, exactly, for EVERY protocol of M (`Proto.d
 `tls_queued_con_one_nack_on_failure` for the TLS instance).  Whenever coap_session_disconnected_lkd runs (handshake
 failure, DTLS retransmissions exhausted, alert, TCP connection closed by the peer, application disconnect: every reason
 but an ICMP error) on a session with nothing in flight — before establishment nothing is — its NACKs are precisely one
-per Confirmable of the delay queue, in queue order (`map` over `filter`: each once), followed by nothing that names a
-message (on TLS: the TCP / session events); the delay queue is empty afterwards and nothing is in flight: the messages
-are gone. -/
+per Confirmable of the delay queue, in queue order (`map` over `filter`: each once), followed by NOTHING THAT NAMES A
+MESSAGE IF THE DELAY QUEUE HELD A CONFIRMABLE: the only other named NACK the function can raise — the request of the
+first lg_crcv entry, block mode — occurs only when the delay queue had no Confirmable at all (so a queued Confirmable that
+also has an lg_crcv entry, e.g. an Observe registration, is never reported twice); then the TCP / session events, the
+close; the delay queue and the lg_crcv list are empty afterwards and nothing is in flight: the messages are gone. -/
 theorem queued_con_one_nack_on_failure_partial (c : Ctx) (r : Nack) (hr : r ≠ .icmp) (hi : c.s.inflight = []) :
     ∃ rest, (c.disconnected r).out = c.out ++ ((c.s.delayq.filter fun q : QMsg => q.con).map (nackOf r) ++ rest) ∧
-      (∀ o ∈ rest, ∀ r' t sn, o ≠ Out.nack r' (some t) sn) ∧
-      (c.disconnected r).s.delayq = [] ∧ (c.disconnected r).s.inflight = [] := by
+      (∀ o ∈ rest, ∀ r' t sn, o = Out.nack r' (some t) sn →
+        (c.s.delayq.filter fun q : QMsg => q.con) = [] ∧ ∃ g t', c.s.lgCrcv = g :: t' ∧ o = nackOf r g) ∧
+      (c.disconnected r).s.delayq = [] ∧ (c.disconnected r).s.inflight = [] ∧ (c.disconnected r).s.lgCrcv = [] := by
   have hpre := disconnected_eq c r hr hi
   generalize hpd : discPre c r = pre at hpre
-  have hpo : pre.out = c.out ++ ((c.s.delayq.filter fun q : QMsg => q.con).map (nackOf r) ++
-      (if ((c.s.delayq.filter fun q : QMsg => q.con).map (nackOf r)).isEmpty then [Out.nack r none none] else [])) := by
-    rw [← hpd]; rfl
-  have hpq : pre.s.delayq = [] ∧ pre.s.inflight = [] := by rw [← hpd]; exact ⟨rfl, rfl⟩
+  have hpo : pre.out = c.out ++ (dqNacks c r ++ discRest c r) := by
+    rw [← hpd, ← discOuts_eq c r hr hi]; rfl
+  have hpq : pre.s.delayq = [] ∧ pre.s.inflight = [] ∧ pre.s.lgCrcv = [] := by rw [← hpd]; exact ⟨rfl, rfl, rfl⟩
   obtain ⟨l1, a1, a2, a3, a4, _⟩ := relTail_shape c.s.state pre
   obtain ⟨l2, b1, b2, b3, b4, _⟩ := sessionClose_shape (pre.relTail c.s.state)
-  refine ⟨(if ((c.s.delayq.filter fun q : QMsg => q.con).map (nackOf r)).isEmpty then [Out.nack r none none] else []) ++ (l1 ++ l2),
-    ?_, ?_, ?_, ?_⟩
-  · rw [hpre, b1, a1, hpo]; simp [List.append_assoc]
+  refine ⟨discRest c r ++ (l1 ++ l2), ?_, ?_, ?_, ?_, ?_⟩
+  · rw [hpre, b1, a1, hpo]; simp [dqNacks, List.append_assoc]
   · intro o ho r' t sn heq
     simp only [List.mem_append] at ho
     rcases ho with ho | ho | ho
-    · split at ho <;> simp at ho
-      subst ho; simp at heq
+    · unfold discRest at ho
+      split at ho
+      · rename_i hf
+        cases hl : c.s.lgCrcv with
+        | nil => simp [hl] at ho; subst ho; simp at heq
+        | cons g t' => simp [hl] at ho; exact ⟨hf, g, t', rfl, ho⟩
+      · simp at ho
     · obtain ⟨e, rfl⟩ := a2 o ho; simp at heq
     · rcases b2 o ho with rfl | rfl <;> simp at heq
   · rw [hpre, b3, a3, hpq.1]
-  · rw [hpre, b4, a4, hpq.2]
+  · rw [hpre, b4, a4, hpq.2.1]
+  · rw [hpre, (sessionClose_state _).2.2, relTail_lg, hpq.2.2]
+
+/-- does this output report the message with ghost serial number `sn` to the application? -/
+def names (sn : Nat) : Out → Bool
+  | .nack _ (some _) (some k) => k == sn
+  | _ => false
+
+theorem countP_sn_one (l : List QMsg) (hnd : (l.map (·.sn)).Nodup) (q : QMsg) (hq : q ∈ l) :
+    l.countP (fun m => m.sn == q.sn) = 1 := by
+  induction l with
+  | nil => simp at hq
+  | cons m t ih =>
+    simp only [List.map_cons, List.nodup_cons, List.mem_map, not_exists, not_and] at hnd
+    simp only [List.mem_cons] at hq
+    rcases hq with rfl | hq
+    · have h0 : t.countP (fun m => m.sn == q.sn) = 0 := by
+        rw [List.countP_eq_zero]
+        intro x hx hxe
+        exact hnd.1 x hx (by simpa using hxe)
+      simp [List.countP_cons, h0]
+    · have hne : (m.sn == q.sn) = false := by
+        cases hb : (m.sn == q.sn) with
+        | false => rfl
+        | true =>
+          have he : m.sn = q.sn := by simpa using hb
+          exact absurd he.symm (hnd.1 q hq)
+      simp [List.countP_cons, hne, ih hnd.2 hq]
+
+/-- "each queued Confirmable request is reported by EXACTLY ONE NACK" at the failure step, as a count: with distinct
+messages in the delay queue (ghost serial numbers; `appSend`/`appSendL` hand out fresh ones), the outputs
+coap_session_disconnected_lkd adds contain exactly one NACK naming each queued Confirmable — whether or not the request
+also has an lg_crcv entry (block mode: Observe, Non-confirmable, reliable transport) -/
+theorem queued_con_exactly_one_nack_on_failure (c : Ctx) (r : Nack) (hr : r ≠ .icmp) (hi : c.s.inflight = [])
+    (hnd : (c.s.delayq.map (·.sn)).Nodup) (q : QMsg) (hq : q ∈ c.s.delayq) (hc : q.con = true) :
+    ∃ new, (c.disconnected r).out = c.out ++ new ∧ new.countP (names q.sn) = 1 := by
+  obtain ⟨rest, h1, h2, _⟩ := queued_con_one_nack_on_failure_partial c r hr hi
+  refine ⟨_, h1, ?_⟩
+  have hqf : q ∈ c.s.delayq.filter fun q : QMsg => q.con := by simp [hq, hc]
+  have hrest : rest.countP (names q.sn) = 0 := by
+    rw [List.countP_eq_zero]
+    intro o ho hn
+    cases o with
+    | nack r' t sn =>
+      cases t with
+      | none => simp [names] at hn
+      | some t =>
+        have := (h2 _ ho r' t sn rfl).1
+        rw [this] at hqf; simp at hqf
+    | _ => simp [names] at hn
+  have hndf : ((c.s.delayq.filter fun q : QMsg => q.con).map (·.sn)).Nodup :=
+    List.Nodup.sublist (List.Sublist.map _ List.filter_sublist) hnd
+  have hdq : ((c.s.delayq.filter fun q : QMsg => q.con).map (nackOf r)).countP (names q.sn) = 1 := by
+    rw [List.countP_map]
+    have : (names q.sn ∘ nackOf r) = fun m : QMsg => m.sn == q.sn := by
+      funext m; simp [names, nackOf]
+    rw [this]
+    exact countP_sn_one _ hndf q hqf
+  rw [List.countP_append, hdq, hrest]
 
 /-- the same at release, for every protocol: coap_session_free -> coap_session_mfree NACKs every Confirmable still in
-the delay queue once (reason TLS failure on a DTLS session, NOT_DELIVERABLE otherwise), after closing the TLS object,
-and empties the queue -/
+the delay queue once (reason TLS failure on a DTLS session, NOT_DELIVERABLE otherwise), after deleting the lg_crcv
+entries silently and closing the TLS object, and empties the queue -/
 theorem queued_con_one_nack_on_release_any (c : Ctx) :
     ∃ l, c.sessionFree.out = c.out ++ (l ++ (c.s.delayq.filter fun q : QMsg => q.con).map
         (nackOf (if c.s.proto = .dtls then .tls else .undeliv))) ∧
-      (∀ o ∈ l, o = Out.bye ∨ o = Out.ev .closed) ∧ c.sessionFree.s.delayq = [] ∧ c.sessionFree.s.freed = true := by
-  obtain ⟨l, h1, h2, h3, _, h5⟩ := sessionClose_shape c
-  refine ⟨l, ?_, h2, ?_, ?_⟩
+      (∀ o ∈ l, o = Out.bye ∨ o = Out.ev .closed) ∧ c.sessionFree.s.delayq = [] ∧ c.sessionFree.s.freed = true ∧
+      c.sessionFree.s.lgCrcv = [] := by
+  obtain ⟨l, h1, h2, h3, _, h5⟩ := sessionClose_shape (c.upd fun s => { s with lgCrcv := [] })
+  have h6 := (sessionClose_state (c.upd fun s => { s with lgCrcv := [] })).2.2
+  refine ⟨l, ?_, h2, ?_, ?_, ?_⟩
   · unfold Ctx.sessionFree
-    simp [Ctx.upd, h1, h3, h5, List.append_assoc]
+    simp only [Ctx.upd] at h1 h3 h5 ⊢
+    simp [h1, h3, h5, List.append_assoc]
   · simp [Ctx.sessionFree, Ctx.upd]
   · simp [Ctx.sessionFree, Ctx.upd]
+  · simp only [Ctx.sessionFree, Ctx.upd] at h6 ⊢
+    simpa using h6
 
 /-- … on a DTLS session -/
 theorem queued_con_one_nack_on_release (c : Ctx) (hp : c.s.proto = .dtls) :
     ∃ l, c.sessionFree.out = c.out ++ (l ++ (c.s.delayq.filter fun q : QMsg => q.con).map (nackOf .tls)) ∧
-      (∀ o ∈ l, o = Out.bye ∨ o = Out.ev .closed) ∧ c.sessionFree.s.delayq = [] ∧ c.sessionFree.s.freed = true := by
+      (∀ o ∈ l, o = Out.bye ∨ o = Out.ev .closed) ∧ c.sessionFree.s.delayq = [] ∧ c.sessionFree.s.freed = true ∧
+      c.sessionFree.s.lgCrcv = [] := by
   have := queued_con_one_nack_on_release_any c
   simpa [hp] using this
 
 /-- … on a TLS session -/
 theorem tls_queued_con_one_nack_on_release (c : Ctx) (hp : c.s.proto = .tls) :
     ∃ l, c.sessionFree.out = c.out ++ (l ++ (c.s.delayq.filter fun q : QMsg => q.con).map (nackOf .undeliv)) ∧
-      (∀ o ∈ l, o = Out.bye ∨ o = Out.ev .closed) ∧ c.sessionFree.s.delayq = [] ∧ c.sessionFree.s.freed = true := by
+      (∀ o ∈ l, o = Out.bye ∨ o = Out.ev .closed) ∧ c.sessionFree.s.delayq = [] ∧ c.sessionFree.s.freed = true ∧
+      c.sessionFree.s.lgCrcv = [] := by
   have := queued_con_one_nack_on_release_any c
   simpa [hp] using this
 
@@ -348,6 +443,26 @@ theorem send_before_established_is_held (c : Ctx) (con : Bool) (code mid : Nat) 
       (c.appSend con code mid tok).s.delayq = c.s.delayq ++ [{ sn := c.s.next, con := con, code := code, mid := mid, tok := tok }] := by
   unfold Ctx.appSend Ctx.sendInternal Ctx.sendPdu Ctx.delayPdu
   simp [Ctx.upd, Ctx.setRet, hs, hc, hp, hm, DELAYED]
+
+/-- the same with COAP_BLOCK_USE_LIBCOAP (`appSendL`): held back, nothing written, nothing NACKed; a request that needs
+large-receive / observe tracking (Non-confirmable, or Observe option) ALSO gets an lg_crcv entry, at the head of the list —
+the very situation in which `queued_con_exactly_one_nack_on_failure` matters -/
+theorem send_before_established_is_held_block_mode (c : Ctx) (con obs : Bool) (code mid : Nat) (tok : String)
+    (hs : c.s.state ≠ .established) (hc : c.s.typ = .client) (hp : c.s.proto = .dtls) (hb : c.s.blockMode = true)
+    (hm : c.s.delayq.any (·.mid = mid) = false) :
+    (c.appSendL con obs code mid tok).out = c.out ∧
+      (c.appSendL con obs code mid tok).s.delayq = c.s.delayq ++ [{ sn := c.s.next, con := con, code := code, mid := mid, tok := tok }] ∧
+      (c.appSendL con obs code mid tok).s.lgCrcv =
+        (if !con || obs then { sn := c.s.next, con := con, code := code, mid := mid, tok := tok } :: eraseTok tok c.s.lgCrcv
+         else c.s.lgCrcv) := by
+  unfold Ctx.appSendL Ctx.sendLkdTail Ctx.needLgCrcv Ctx.sendInternal Ctx.sendPdu Ctx.delayPdu
+  cases con <;> cases obs <;> simp [Ctx.upd, Ctx.setRet, hs, hc, hp, hb, hm, DELAYED]
+
+/-- without block mode `appSendL` is `appSend` -/
+theorem appSendL_no_block_mode (c : Ctx) (con obs : Bool) (code mid : Nat) (tok : String) (hb : c.s.blockMode = false) :
+    c.appSendL con obs code mid tok = c.appSend con code mid tok := by
+  unfold Ctx.appSendL Ctx.appSend Ctx.sendLkdTail
+  simp [Ctx.upd, hb]
 
 /-- which messages one pass of coap_session_connected writes: everything up to (not including) the first Confirmable
 that finds another Confirmable active (NSTART = 1) -/
@@ -435,9 +550,9 @@ theorem queued_delivered_in_order_once_on_success_partial (fuel : Nat) (c : Ctx)
 
 /-- the TLS client session made by coap_new_client_session_psk2 — connect() completed at once (`now`) or still in
 progress — is unauthenticated unless the oracle says otherwise in the creating call … -/
-theorem newClientTls_sessOk (now : Bool) (orc : List Orc) :
-    SessOk ((⟨true, false⟩ : Mon).run (newClientTlsCtx now orc).out) (newClientTlsCtx now orc).s := by
-  have h0 : Inv ⟨true, false⟩ false ({ s := { proto := .tls, typ := .client }, orc := orc } : Ctx) :=
+theorem newClientTls_sessOk (now : Bool) (orc : List Orc) (bm : Bool := false) :
+    SessOk ((⟨true, false⟩ : Mon).run (newClientTlsCtx now orc bm).out) (newClientTlsCtx now orc bm).s := by
+  have h0 : Inv ⟨true, false⟩ false ({ s := { proto := .tls, typ := .client, blockMode := bm }, orc := orc } : Ctx) :=
     ⟨rfl, by simp, by simp, by simp, by simp⟩
   unfold newClientTlsCtx
   exact sessOk_of_inv (inv_ite (fun _ => tlsEstablish_inv h0) fun _ => inv_upd _ (by simp) (by simp) (by simp) h0)
@@ -469,9 +584,10 @@ theorem tls_nothing_written_before_hsOk {s : Sess} (hp : s.proto = .tls) (he : s
 
 /-- whole life of a TLS client session, from coap_new_client_session_psk2 on -/
 theorem tls_client_life_gated (now : Bool) (orc0 : List Orc) (evs : List (Ev × List Orc)) (pre post : List Out) (o : Out)
-    (htr : (newClientTlsCtx now orc0).out ++ ((newClientTlsCtx now orc0).s.run evs).2 = pre ++ o :: post)
+    (bm : Bool := false)
+    (htr : (newClientTlsCtx now orc0 bm).out ++ ((newClientTlsCtx now orc0 bm).s.run evs).2 = pre ++ o :: post)
     (ho : o.needsHs = true) : Out.hsOkMark ∈ pre ∧ o.isClear = false := by
-  have hk := (run_sessOk evs (newClientTls_sessOk now orc0)).ok
+  have hk := (run_sessOk evs (newClientTls_sessOk now orc0 bm)).ok
   rw [← Mon.run_append, htr] at hk
   constructor
   · rcases mon_split _ pre post o hk ho with h1 | ⟨x, hx, hm⟩
@@ -498,17 +614,18 @@ NONE, `doing_first` is cleared. -/
 theorem tls_queued_con_one_nack_on_failure (c : Ctx) (hp : c.s.proto = .tls) (r : Nack) (hr : r ≠ .icmp)
     (hi : c.s.inflight = []) :
     ∃ rest, (c.disconnected r).out = c.out ++ ((c.s.delayq.filter fun q : QMsg => q.con).map (nackOf r) ++ rest) ∧
-      (∀ o ∈ rest, ∀ r' t sn, o ≠ Out.nack r' (some t) sn) ∧
+      (∀ o ∈ rest, ∀ r' t sn, o = Out.nack r' (some t) sn →
+        (c.s.delayq.filter fun q : QMsg => q.con) = [] ∧ ∃ g t', c.s.lgCrcv = g :: t' ∧ o = nackOf r g) ∧
       (c.disconnected r).s.delayq = [] ∧ (c.disconnected r).s.inflight = [] ∧
       (c.disconnected r).s.state = .none ∧ (c.disconnected r).s.doingFirst = false := by
-  obtain ⟨rest, h1, h2, h3, h4⟩ := queued_con_one_nack_on_failure_partial c r hr hi
+  obtain ⟨rest, h1, h2, h3, h4, _⟩ := queued_con_one_nack_on_failure_partial c r hr hi
   have hpp : (discPre c r).s.proto = .tls := hp
   have hps : (discPre c r).s.state = .none := by simp [discPre, hp]
   have a := sessionClose_state ((discPre c r).relTail c.s.state)
   have b := relTail_state_tls c.s.state (discPre c r) hpp
   refine ⟨rest, h1, h2, h3, h4, ?_, ?_⟩
   · rw [disconnected_eq c r hr hi, a.1, b.1, hps]
-  · rw [disconnected_eq c r hr hi, a.2, b.2]
+  · rw [disconnected_eq c r hr hi, a.2.1, b.2]
 
 /-- `queued_delivered_in_order_once_on_success_partial` on a TLS session: once the peer's CSM has arrived
 (coap_session_connected), with the TLS library accepting the writes, the WHOLE delay queue is written through
@@ -551,7 +668,77 @@ theorem tls_queued_delivered_in_order_once_on_success (fuel : Nat) (c : Ctx) (hp
       rw [hrec.1, hrec.2, o1, o2]
       simp [List.append_assoc]
 
+/-! ### which key is a client checked against?  (server side, `Coap.PskSelect`) -/
+
+open Coap.PskSelect in
+/-- "with a pre-shared key that differs … the session never becomes established", for a server that has served other
+clients before: WHATEVER handshakes the server context has seen (any server names — cached by the first client that asks
+for them —, any identities, handshakes that got as far as the key exchange or not), the key libcoap's callbacks hand the
+TLS library for a ClientHello with server name `sni` and identity `id` is the key S says the server holds for them — the
+one configured for that name (validate_sni_call_back) or identity (validate_id_call_back), never another name's, never the
+context default in its place.  (An empty key is nobody's: `normKey`.) -/
+theorem server_key_history_independent (cfg : TlsCreds.Cfg) (hist : List (String × Option String)) (sni id : String) :
+    normKey (handshakeKey (toSrv cfg) (runHist (toSrv cfg) [] hist) sni id).2 = TlsCreds.serverKey cfg sni id :=
+  (handshakeKey_spec cfg _ (runHist_cacheOk cfg hist [] (fun _ _ e he => by simp at he)) sni id).2
+
+/-- S is about that key: a configuration is acceptable only if the key the server holds for the client's server name and
+identity IS the client's key (so: `server_key_history_independent` + a TLS library that completes a PSK handshake only
+between equal keys = no client is established against a key that is not the one configured for it) -/
+theorem accepts_ok_key (cfg : TlsCreds.Cfg) (h : TlsCreds.accepts cfg = .ok) :
+    TlsCreds.serverKey cfg (cfg.sni.getD "") cfg.ci = some cfg.ck := by
+  have ite_ok : ∀ (p : Prop) [Decidable p], (if p then TlsCreds.Verdict.ok else TlsCreds.Verdict.fail) = .ok → p := by
+    intro p _ hp; by_cases hq : p
+    · exact hq
+    · simp [hq] at hp
+  unfold TlsCreds.accepts at h
+  unfold TlsCreds.serverKey
+  by_cases h0 : cfg.ck = "" ∨ cfg.ci = ""
+  · simp [h0] at h
+  · simp only [h0, if_false] at h
+    cases hs : TlsCreds.served cfg (cfg.sni.getD "") with
+    | none => simp [hs] at h
+    | some hk =>
+      obtain ⟨hint, dk⟩ := hk
+      simp only [hs] at h ⊢
+      cases hst : cfg.st with
+      | none =>
+        simp only [hst] at h ⊢
+        obtain ⟨_, hne, heq⟩ := ite_ok _ h
+        rw [if_neg hne, heq]
+      | some t2 =>
+        simp only [hst] at h ⊢
+        cases hl : TlsCreds.lookup2 cfg.ci t2 with
+        | none => simp [hl] at h
+        | some k =>
+          simp only [hl] at h ⊢
+          obtain ⟨_, hne, heq⟩ := ite_ok _ h
+          rw [if_neg hne, heq]
+
 /-! ### non-vacuity -/
+
+section PskSelectExamples
+open Coap.PskSelect
+
+/-- a server whose key is selected by server name: "host" -> key "kex" (hint "h"); the context default key is "key" -/
+def sniCfg : TlsCreds.Cfg := { sk := "6b6579", ss := some [("686f7374", "68", "6b6578")] }
+
+/-- the FIRST ClientHello for "host" fills the cache and is checked against "kex" … -/
+example : handshakeKey (toSrv sniCfg) [] "686f7374" "6964" = ([⟨"686f7374", "68", "6b6578"⟩], some "6b6578") := by decide
+/-- … and so is the SECOND one, served from the cache: not against the context default "key" -/
+example : (handshakeKey (toSrv sniCfg) (runHist (toSrv sniCfg) [] [("686f7374", some "6964")]) "686f7374" "6964").2 = some "6b6578" := by
+  decide
+/-- a name outside the table is refused, cache unchanged; no name at all likewise -/
+example : handshakeKey (toSrv sniCfg) [⟨"686f7374", "68", "6b6578"⟩] "686f7375" "6964" = ([⟨"686f7374", "68", "6b6578"⟩], none) := by decide
+example : (handshakeKey (toSrv sniCfg) [] "" "6964").2 = none := by decide
+/-- an identity table decides alone; an unknown identity gets no key -/
+example : (handshakeKey (toSrv { sniCfg with st := some [("6964", "6b6b")] }) [] "686f7374" "6964").2 = some "6b6b" := by decide
+example : (handshakeKey (toSrv { sniCfg with st := some [("6964", "6b6b")] }) [] "686f7374" "6162").2 = none := by decide
+/-- S on the same cases -/
+example : TlsCreds.serverKey sniCfg "686f7374" "6964" = some "6b6578" := by decide
+example : TlsCreds.accepts { sniCfg with sni := some "686f7374", ck := "6b6579" } = .fail := by decide
+example : TlsCreds.accepts { sniCfg with sni := some "686f7374", ck := "6b6578" } = .ok := by decide
+
+end PskSelectExamples
 
 /-- a TLS client session as coap_new_client_session_psk2 leaves it when connect() completed at once: HANDSHAKE -/
 def tlsHsClient : Sess := (newClientTlsCtx true [.env true, .hs .again]).s
@@ -610,6 +797,38 @@ example :
     (hsClient.run [(.appSend true 1 7 "01", []), (.appSend false 1 8 "02", []), (.dgram, [.hs .fatalrx])]) =
       ({ hsClient with state := .none, tls := false, sentAlert := false, dtlsEvent := some .closed, next := 2 },
        [.nack .tls (some "01") (some 0), .ev .closed]) := by
+  decide
+
+/-- block mode (COAP_BLOCK_USE_LIBCOAP): a Confirmable Observe registration and a plain Confirmable queued during the
+handshake — the first has an lg_crcv entry as well; the handshake fails with an alert: each is NACKed exactly once (the
+lg_crcv entry is NOT reported on top of the delay-queue NACK), the lg_crcv list is gone -/
+example :
+    (({ hsClient with blockMode := true } : Sess).run
+        [(.appSendL true true 1 7 "01", []), (.appSendL true false 1 8 "02", []), (.dgram, [.hs .fatalrx])]) =
+      ({ hsClient with blockMode := true, state := .none, tls := false, sentAlert := false, dtlsEvent := some .closed, next := 2 },
+       [.nack .tls (some "01") (some 0), .nack .tls (some "02") (some 1), .ev .closed]) := by
+  decide
+
+/-- … the instance of `queued_con_exactly_one_nack_on_failure` on that state: request "01" (serial 0) is named once -/
+example :
+    let s : Sess := (({ hsClient with blockMode := true } : Sess).run [(.appSendL true true 1 7 "01", []), (.appSendL true false 1 8 "02", [])]).1
+    s.lgCrcv.map (·.tok) = ["01"] ∧ s.delayq.map (·.tok) = ["01", "02"] ∧
+      ((({ s := s } : Ctx).disconnected .tls).out.countP (names 0)) = 1 := by
+  decide
+
+/-- block mode, only Non-confirmables queued (each has an lg_crcv entry; most recent first): nothing was reported from
+the queues, so the request of the FIRST lg_crcv entry is (one NACK, instead of the anonymous one) -/
+example :
+    (({ hsClient with blockMode := true } : Sess).run
+        [(.appSendL false false 1 7 "01", []), (.appSendL false false 1 8 "02", []), (.dgram, [.hs .fatalrx])]).2 =
+      [.nack .tls (some "02") (some 1), .ev .closed] := by
+  decide
+
+/-- block mode, success: the response expires the lg_crcv entry of its token -/
+example :
+    (({ hsClient with blockMode := true } : Sess).run
+        [(.appSendL true true 1 7 "01", []), (.dgram, [.hs .ok, .snd .ok]),
+         (.dgram, [.recv (.data ⟨2, 69, 7, "01", "6869"⟩)])]).1.lgCrcv = [] := by
   decide
 
 /-- DTLS retransmissions exhausted (fifth timer expiry): same outcome through coap_dtls_handle_timeout -/
